@@ -375,8 +375,8 @@ func TestC12_DatagramBoundaries(t *testing.T) {
 				}
 			}
 			// a write
-			if problem == "" && rapid.Bool().Draw(rt, "write") {
-				to := senders[0]
+			for wr := rapid.IntRange(0, 3).Draw(rt, "nwrites"); problem == "" && wr > 0; wr-- {
+				to := senders[rapid.IntRange(0, ns-1).Draw(rt, "dest")] // same address, different ports: the destination is per write
 				tag++
 				p := payload(tag, rapid.OneOf(rapid.IntRange(1, 1372), rapid.SampledFrom([]int{1, 1372, 9000})).Draw(rt, "wlen"))
 				calls := 0
@@ -393,7 +393,7 @@ func TestC12_DatagramBoundaries(t *testing.T) {
 				if calls != 1 || werr != nil {
 					problem = fmt.Sprintf("write of %d bytes: callback ran %d times, err %v", len(p), calls, werr)
 				} else {
-					if !sysx.WaitReadable(to.fd, 1000) {
+					if !sysx.WaitReadable(to.fd, 300) {
 						problem = fmt.Sprintf("datagram of %d bytes written by %s never reached the destination", len(p), rd.name())
 					} else {
 						buf := make([]byte, 65536)
